@@ -31,7 +31,8 @@ def main():
             ('MC_SpinePaths', 'MC_SpinePaths_opts.cfg', 'MC_SpinePaths(CommuteLaw)')],
         populations=[('main', dp.sess_c04, 110, 2500, {}), ('own_spine_types', dp.sess_c04, 30, 300, {'own_types': True}),
                      ('multi_character_signifiers', dp.sess_c04, 20, 300, {'profile': 'multi_sigs'}),
-                     ('root_spines', dp.sess_c04, 10, 150, {'profile': 'with_root'})],
+                     ('root_spines', dp.sess_c04, 10, 150, {'profile': 'with_root'}),
+                     ('free_text_with_runs_of_blanks', dp.sess_c04, 20, 300, {'blanks': True})],
         nontrivial=lambda s: bool(set(s['tags']) & {'chord', 'non-kern'}),
         symptom_of=symptom_of, explored=['natural_or_display_suffix'])
 
